@@ -39,6 +39,21 @@ func soloSearch(s *search.Search, b *board.Board, depth int, stopAt, ponderAt in
 	return soloSearchN(s, b, depth, -1, stopAt, ponderAt, withPonder)
 }
 
+// soloSoftTime runs the real search with a soft time limit on the virtual clock, which advances by 1 ms at every stop poll.
+func soloSoftTime(s *search.Search, b *board.Board, depth int, softMs int64) (searchRes, *vsched.SoloPlan) {
+	stop := make(chan struct{})
+	plan := &vsched.SoloPlan{Now: time.Unix(2_000_000, 0), Stop: (<-chan struct{})(stop), StopAt: -1, PonderAt: -1}
+	plan.OnPoll = func(p *vsched.SoloPlan) { p.Now = p.Now.Add(time.Millisecond) }
+	tw := &traceWriter{plan: plan}
+	var cnt search.Counters
+	vsched.Solo = plan
+	sc, mv, pm := s.Go(b, search.WithOutput(tw), search.WithCounters(&cnt), search.WithDepth(Depth(depth)), search.WithStop(stop), search.WithSoftTime(softMs))
+	vsched.Solo = nil
+	res := searchRes{Score: sc, Move: mv, Ponder: pm, Nodes: cnt.Nodes, Out: tw.buf.String()}
+	res.Infos, _ = parseInfo(res.Out)
+	return res, plan
+}
+
 func soloSearchN(s *search.Search, b *board.Board, depth, nodes int, stopAt, ponderAt int, withPonder bool) (searchRes, *vsched.SoloPlan) {
 	stop := make(chan struct{})
 	var ponder chan time.Time
@@ -224,6 +239,26 @@ func runC06Stop(r *ev.Run) {
 				if cls, msg, _ := c06StopOne(s, fen, d, i); cls != "" {
 					fails = append(fails, fl{cls, c06StopCase{fen, d, i}, msg})
 				}
+			}
+		}
+	}
+	// soft time limits on the virtual clock (1 ms per poll): the search ends between iterations once the
+	// elapsed virtual time exceeds the limit; every limit from 1 ms up to the length of the full search
+	for _, fen := range soloRoots {
+		h, err := newHistory(fen, nil)
+		if err != nil {
+			continue
+		}
+		_, fullPlan := soloSoftTime(s, h.B, 4, 1<<40)
+		for ms := int64(1); ms <= int64(fullPlan.StopPolls)+1 && len(fails) < 3; ms += 1 + ms/16 {
+			s.Clear()
+			res, _ := soloSoftTime(s, h.B, 4, ms)
+			runs++
+			req := searchReq{FEN: fen, Depth: 4, Nodes: -1}
+			if cls, msg := judgeMove(h, req, &res); cls != "" {
+				fails = append(fails, fl{"softtime/" + cls, c06StopCase{fen, 4, int(ms)}, fmt.Sprintf("%s depth 4 soft time %d ms (virtual clock): %s", fen, ms, msg)})
+			} else if cls, msg := judgePV(h, &res); cls != "" {
+				fails = append(fails, fl{"softtime/pv/" + cls, c06StopCase{fen, 4, int(ms)}, fmt.Sprintf("%s depth 4 soft time %d ms (virtual clock): %s", fen, ms, msg)})
 			}
 		}
 	}
